@@ -193,9 +193,17 @@ def judge_binpacking(ctx, setup, kv, secs, live, case):
         ctx.violation("from_single_log-end-result-differs",
                       f"best_f {er.best_f}, fes {er.total_fes}, seed "
                       f"{er.rand_seed}", case)
-    if pr.bin_bounds.get("bins.lowerBound") != inst.lower_bound_bins:
+    A = desc["W"] * desc["H"]
+    geo = -(-sum(w * h * r for w, h, r in desc["items"]) // A)
+    bb = dict(pr.bin_bounds)
+    damv = bb.get("bins.lowerBound.damv")
+    if bb.get("bins.lowerBound") != inst.lower_bound_bins or \
+            bb.get("bins.lowerBound.geometric") != max(1, geo) or \
+            not isinstance(damv, int) or \
+            max(max(1, geo), damv) != inst.lower_bound_bins:
         ctx.violation("from_single_log-bin-bounds-differ",
-                      f"{dict(pr.bin_bounds)}", case)
+                      f"{bb}; instance lower bound {inst.lower_bound_bins}, "
+                      f"ceil(area/bin area) = {geo}", case)
 
 
 def judge_tsp(ctx, setup, kv, secs, live, case):
